@@ -45,6 +45,7 @@ def discharge(report, C, pc, pid, scen_name, spec, timeout_ms, extra_witness=Non
         report.queries += 1
         if r == z3.unknown:
             raise Inconclusive('solver timeout on ' + what)
+        common.cross_check(s, r)
         if r == z3.sat:
             m = s.model()
             vios.append({'key': key, 'what': '[%s] %s is not preserved (solver model: %s)' % (scen_name, what, str(m)[:160].replace('\n', ' ')),
@@ -99,7 +100,7 @@ def _par_work(i):
             v['native_check_name'] = getattr(nc, '__qualname__', None)
     obs = [(o.oid, o.text, o.status, o.detail, o.cex) for o in rep.obligations]
     vs = [{k: x for k, x in v.items() if k != 'native_check'} for v in rep.violations]
-    return {'obs': obs, 'vios': vs, 'q': rep.queries, 'solver_s': rep.solver_s, '_tot': tot, '_used': used, '_enc': enc}
+    return {'obs': obs, 'vios': vs, 'q': rep.queries, 'solver_s': rep.solver_s, '_tot': tot, '_used': used, '_enc': enc, 'cross': dict(common.CROSS)}
 
 
 def run_parallel(ctx, report, fn, items, nproc=None):
@@ -119,6 +120,8 @@ def run_parallel(ctx, report, fn, items, nproc=None):
     agg = {'steps': 0, 'queries': 0, 'qtime': 0.0, 'forks': 0, 'calls_interpreted': 0, 'calls_modelled': 0}
     used, enc = {}, {}
     for r in results:
+        for k_, v_ in (r.get('cross') or {}).items():
+            common.CROSS[k_] += v_
         report.queries += r['q']
         report.solver_s += r['solver_s']
         for k in agg:
